@@ -148,6 +148,13 @@ fn programs(c: &Caps, mem: &str, n: u64) -> Vec<(&'static str, String, Option<u6
                     s.push_str(&"nop\n".repeat((n - k * lw) as usize));
                     v.push(("lds-sts-lines", s, None));
                 }
+                // flash filled by instructions while a macro places data in the other memories
+                if c.eeprom >= 2 {
+                    v.push(("nop-lines+eeprom-data-from-macro", format!("{}.macro ee_const\n.eseg\n.db @0, @0 + 1\n.cseg\n.endm\nee_const 1\n{}ee_const 3\n", dev, "nop\n".repeat(n as usize)), None));
+                }
+                if c.ram >= 2 {
+                    v.push(("nop-lines+ram-from-macro", format!("{}.macro ram_var\n.dseg\n.byte 1\n.cseg\n.endm\nram_var\n{}ram_var\n", dev, "nop\n".repeat(n as usize)), Some(2)));
+                }
                 // the same through macro expansion
                 let mut s = format!("{}.macro sixteen\n{}.endm\n", dev, "nop\n".repeat(16));
                 s.push_str(&"sixteen\n".repeat((n / 16) as usize));
@@ -249,7 +256,22 @@ pub fn run(tier: Tier) -> i32 {
             0 => "cap",
             _ => "cap+1",
         };
+        // the device may be selected by a plain line, inside the body of a macro that is called, or
+        // inside a selected conditional arm: the limits and the reported sizes are the same
+        let mut progs: Vec<(String, String, Option<u64>)> = vec![];
         for (way, src, ramf) in programs(&c, mem, n) {
+            if let Some(name) = &c.name {
+                let plain = format!(".device {}\n", name);
+                if src.starts_with(&plain) && src.len() < 300_000 {
+                    let rest = &src[plain.len()..];
+                    progs.push((format!("{}+device-in-macro", way), format!(".macro board_setup\n.device {}\n.endm\nboard_setup\n{}", name, rest), ramf));
+                    progs.push((format!("{}+device-in-conditional", way), format!(".if 1\n.device {}\n.else\n.device ATmega2560\n.endif\n{}", name, rest), ramf));
+                }
+            }
+            progs.push((way.to_string(), src, ramf));
+        }
+        for (way, src, ramf) in progs {
+            let way = way.as_str();
             configs.fetch_add(1, Ordering::Relaxed);
             let o = sut::build_str(&src);
             evals.fetch_add(1, Ordering::Relaxed);
@@ -444,7 +466,7 @@ pub fn run(tier: Tier) -> i32 {
     let coverage = cov(json!({
         "evaluations": evals.load(Ordering::Relaxed),
         "distinct_nontrivial": configs.load(Ordering::Relaxed),
-        "rule": "every row of the device table and 'no device' x {flash, EEPROM, RAM} x {capacity-1, capacity, capacity+1} x every way of getting there (.org+item, blocks of data, two-word instruction ending at the limit, .byte n, several interleaved segments) with expectation Ok/Ok/Err and ram_filling = data extent; reported sizes and RAM start per row; unknown and second .device (in the same file, after an include that selected one, in a sibling or nested include, after a shipped part file), limits of a device selected inside an include; every shipped includes/*def.inc x its four #pragma AVRPART MEMORY figures. distinct_nontrivial = distinct (device, memory, amount, way) limit programs",
+        "rule": "every row of the device table and 'no device' x {flash, EEPROM, RAM} x {capacity-1, capacity, capacity+1} x every way of getting there (.org+item, blocks of data, two-word instruction ending at the limit, .byte n, several interleaved segments, instruction lines, lds/sts lines, macro-expanded lines, a full flash next to EEPROM/RAM data placed from a macro) x the way the device is selected (plain line, body of a called macro, selected conditional arm) with expectation Ok/Ok/Err and ram_filling = data extent; reported sizes and RAM start per row; unknown and second .device (in the same file, after an include that selected one, in a sibling or nested include, after a shipped part file), limits of a device selected inside an include; every shipped includes/*def.inc x its four #pragma AVRPART MEMORY figures. distinct_nontrivial = distinct (device, memory, amount, way) limit programs",
         "exhaustive": true,
         "devices": devs.len(),
         "part_files_found": parts.len(),
